@@ -233,3 +233,18 @@ M("C06", "V", "message written twice when large", STDIO, "                    aw
 M("C06", "V", "fast_json appends newline", FASTJSON, "            options = 0\n            if kwargs.get(\"indent\"):\n                options |= _orjson.OPT_INDENT_2\n\n            return _orjson.dumps(obj, option=options).decode(\"utf-8\")", "            options = _orjson.OPT_APPEND_NEWLINE\n            if kwargs.get(\"indent\"):\n                options |= _orjson.OPT_INDENT_2\n\n            return _orjson.dumps(obj, option=options).decode(\"utf-8\")", "R2")
 M("C06", "B", "type dispatch reordered", STDIO, "                    if isinstance(message, str):\n                        # Raw string message (already JSON)\n", "                    if isinstance(message, (str,)):\n                        # Raw string message (already JSON)\n")
 M("C06", "B", "explicit utf-8", STDIO, "                    await self.process.stdin.send(f\"{json_str}\\n\".encode())\n\n                    # Enhanced logging", "                    await self.process.stdin.send(f\"{json_str}\\n\".encode(\"utf-8\"))\n\n                    # Enhanced logging")
+
+# ------------------------------------------------------------------------------ C20
+MAIN = "chuk_mcp/__main__.py"
+M("C20", "V", "tuple passed to stdio_client (pre-fix code)", SRVMGR, "                server_params, _ = await load_config(config_file, sname)\n", "                server_params = await load_config(config_file, sname)\n", "R1")
+M("C20", "V", "CLI passes the tuple", MAIN, "        server_params, _ = await load_config(config_path, server_name)\n", "        server_params = await load_config(config_path, server_name)\n", "R1")
+M("C20", "V", "command joined into one string", STDIO, "                [self.server.command, *self.server.args],\n", "                \" \".join([self.server.command, *self.server.args]),\n", "R3")
+M("C20", "V", "env not passed", STDIO, "                env=env,\n                stderr=subprocess.DEVNULL if suppress_stderr else sys.stderr,", "                stderr=subprocess.DEVNULL if suppress_stderr else sys.stderr,", "R3")
+M("C20", "V", "args dropped at spawn", STDIO, "                [self.server.command, *self.server.args],\n", "                [self.server.command],\n", "R3")
+M("C20", "V", "loader swallows unknown server", CONFIG, "    except ValueError as e:\n        # error\n        logging.error(str(e))\n        raise\n", "    except ValueError as e:\n        # error\n        logging.error(str(e))\n        return None, None\n", "R4")
+M("C20", "V", "missing file becomes ValueError", CONFIG, "        raise FileNotFoundError(error_msg)\n", "        raise ValueError(error_msg)\n", "R4")
+M("C20", "V", "loader reads env from the wrong key", CONFIG, "            env=server_config.get(\"env\"),\n", "            env=server_config.get(\"environment\"),\n", "R2")
+M("C20", "V", "loader takes the first server whatever the name", CONFIG, "        server_config = config.get(\"mcpServers\", {}).get(server_name)\n", "        server_config = next(iter(config.get(\"mcpServers\", {}).values()), None)\n", "R2")
+M("C20", "V", "args default shared with command", CONFIG, "            args=server_config.get(\"args\", []),\n", "            args=server_config.get(\"args\", [server_config[\"command\"]]),\n", "R2")
+M("C20", "B", "unpack with a named timeout", SRVMGR, "                server_params, _ = await load_config(config_file, sname)\n", "                server_params, _timeout = await load_config(config_file, sname)\n")
+M("C20", "B", "rename in CLI", MAIN, "        server_params, _ = await load_config(config_path, server_name)\n", "        server_params, _unused = await load_config(config_path, server_name)\n")
